@@ -36,8 +36,14 @@ def uf(interp, name, *sorts):
 
 def py_str(interp, v, path):
     from .interp import EnumSym, OpaqueV, UnionV, Poison
+    from .values import JUnionV, RecV
+    if isinstance(v, JUnionV):
+        v = interp.narrow_json(v, path)
     if isinstance(v, (str, StrT)):
         return v
+    if isinstance(v, RecV) or (isinstance(v, (SeqV, DictV)) and getattr(v, 'json', False)):
+        # text of a JSON list / object of unknown content (only ever interpolated into messages)
+        return mkstr([z3.String(ops.fresh_json_text())])
     if isinstance(v, bool):
         return 'True' if v else 'False'
     if v is None:
@@ -216,6 +222,9 @@ def ljust(interp, s, width, fill, path):
 def seq_of(interp, v, path, what='iterable'):
     """SeqT of an iterable value."""
     from .interp import Poison
+    from .values import JUnionV
+    if isinstance(v, JUnionV):
+        v = interp.narrow_json(v, path)
     if isinstance(v, SeqV):
         return v.term
     if isinstance(v, SeqT):
@@ -305,6 +314,9 @@ def seq_len(interp, t: SeqT, path):
 
 def do_index(interp, obj, idx, path):
     from .interp import UnionV
+    from .values import JUnionV as _JU
+    if isinstance(obj, _JU):
+        obj = interp.narrow_json(obj, path)
     if isinstance(obj, (str, StrT)):
         return str_index(interp, obj, idx, path)
     if isinstance(obj, tuple):
